@@ -386,11 +386,16 @@ theorem sessAbort_inv (w : World) (pd : PDel) (h : WInv w) (hd : w.sess.delivery
     (by rw [a3, a2, h.heldS]; simp [hd]) (by rw [a4, a2, h.heldN]; simp [hd]) (by rw [a5]; exact h.noPanic) a1
   exact ⟨this.1, this.2.1⟩
 
+/-- dropping the failure kept for a deferred MAIL touches nothing the invariant speaks about -/
+theorem WInv.clearErr {w : World} (h : WInv w) :
+    WInv { w with sess := { w.sess with deliveryErr := none } } :=
+  ⟨by simpa [curEnts] using h.ent, h.heldS, h.heldN, h.noPanic⟩
+
 theorem sessReset_inv (w : World) (h : WInv w) : WInv (sessReset w) ∧ (sessReset w).sess.delivery = none := by
   unfold sessReset
   split
   · rename_i pd hd; exact sessAbort_inv w pd h hd
-  · rename_i hd; exact ⟨h, hd⟩
+  · rename_i hd; exact ⟨h.clearErr, hd⟩
 
 theorem sessLogout_inv (w : World) (h : WInv w) : WInv (sessLogout w) ∧ (sessLogout w).sess.delivery = none := by
   unfold sessLogout
@@ -4377,5 +4382,333 @@ example : (({ hasAll := true, ip := { on := true, maxB := 1, reap := 10 }, src :
     = [⟨1, 2, 0⟩] := by decide
 
 end Buckets
+
+/-! ## One accepted recipient that stands for several effective addresses (`xAddRcpt`, op lines `C03 x`) -/
+
+section Fan
+
+/-- the second rewriting stage neither loses nor invents an address: the result of the first two stages is exactly
+what the source block's modifiers make of EVERY result of the global modifiers -/
+theorem C03_fan_stage2_mem (g s : XTab) (a b : XA) :
+    b ∈ xStage2 g s a ↔ ∃ c ∈ xLookup g a, b ∈ xLookup s c := by
+  simp [xStage2, List.mem_flatMap]
+
+/-- … with multiplicity and in order -/
+theorem C03_fan_stage2_length (g s : XTab) (a : XA) :
+    (xStage2 g s a).length = ((xLookup g a).map (fun c => (xLookup s c).length)).sum := by
+  simp [xStage2, List.length_flatMap]
+
+/-- stages without a table entry leave the recipient alone -/
+theorem C03_fan_stage2_untouched (g s : XTab) (a : XA)
+    (hg : g.find? (fun e => e.1 == a) = none) (hs : s.find? (fun e => e.1 == a) = none) : xStage2 g s a = [a] := by
+  simp [xStage2, xLookup, hg, hs]
+
+theorem xAddEach_mono (m : MailF) (r : RcptF) (tg : List Nat) : ∀ (bs : List XA) (ents : List DEntry) (log : Log),
+    EntInv log ents → EntOK log ents →
+    EntInv (xAddEach m r tg bs ents log).2.1 (xAddEach m r tg bs ents log).1 ∧
+    EntExt ents (xAddEach m r tg bs ents log).1 ∧
+    EntOK (xAddEach m r tg bs ents log).2.1 (xAddEach m r tg bs ents log).1 ∧
+    ((xAddEach m r tg bs ents log).2.2 = none →
+      ∀ b ∈ bs, ∀ k ∈ tg, ∃ e' ∈ (xAddEach m r tg bs ents log).1, e'.tgt = k ∧ (r.uid, b.1) ∈ e'.rcpts) := by
+  intro bs
+  induction bs with
+  | nil => intro ents log h hok; exact ⟨h, EntExt.refl _, hok, by simp [xAddEach]⟩
+  | cons b bs ih =>
+    intro ents log h hok
+    have h1 := (addTargets_spec m (xEff r b) tg ents log h).1
+    have h2 := addTargets_mono m (xEff r b) tg ents log h hok
+    simp only [xAddEach]
+    generalize addTargets m (xEff r b) tg ents log = x at *
+    obtain ⟨e1, l1, err⟩ := x
+    cases err with
+    | some c => exact ⟨h1, h2.1, h2.2.1, by simp⟩
+    | none =>
+      simp only at h1 h2 ⊢
+      obtain ⟨i1, i2, i3, i4⟩ := ih e1 l1 h1 h2.2.1
+      refine ⟨i1, EntExt.trans h2.1 i2, i3, ?_⟩
+      intro hn b' hb' k hk
+      rcases List.mem_cons.mp hb' with hb' | hb'
+      · subst hb'
+        obtain ⟨e', he', ht, hr⟩ := h2.2.2 trivial k hk
+        obtain ⟨e'', he'', ht', _, hr'⟩ := i2 e' he'
+        exact ⟨e'', he'', ht'.trans ht, hr' _ hr⟩
+      · exact i4 hn b' hb' k hk
+
+theorem xAddEffs_mono (cfg : Cfg) (m : MailF) (r : RcptF) (d : XTab) : ∀ (as : List XA) (ents : List DEntry) (log : Log),
+    EntInv log ents → EntOK log ents →
+    EntInv (xAddEffs cfg m r d as ents log).2.1 (xAddEffs cfg m r d as ents log).1 ∧
+    EntExt ents (xAddEffs cfg m r d as ents log).1 ∧
+    EntOK (xAddEffs cfg m r d as ents log).2.1 (xAddEffs cfg m r d as ents log).1 ∧
+    ((xAddEffs cfg m r d as ents log).2.2 = none →
+      ∀ a ∈ as, a.2 < 3 ∧ targetsOf cfg (cfg.routes a.2) ≠ [] ∧
+        ∀ b ∈ xLookup d a, ∀ k ∈ targetsOf cfg (cfg.routes a.2),
+          ∃ e' ∈ (xAddEffs cfg m r d as ents log).1, e'.tgt = k ∧ (r.uid, b.1) ∈ e'.rcpts) := by
+  intro as
+  induction as with
+  | nil => intro ents log h hok; exact ⟨h, EntExt.refl _, hok, by simp [xAddEffs]⟩
+  | cons a as ih =>
+    intro ents log h hok
+    simp only [xAddEffs]
+    split
+    · exact ⟨h, EntExt.refl _, hok, by simp⟩
+    · rename_i hj
+      split
+      · exact ⟨h, EntExt.refl _, hok, by simp⟩
+      · rename_i ht
+        have h2 := xAddEach_mono m r (targetsOf cfg (cfg.routes a.2)) (xLookup d a) ents log h hok
+        generalize xAddEach m r (targetsOf cfg (cfg.routes a.2)) (xLookup d a) ents log = x at *
+        obtain ⟨e1, l1, err⟩ := x
+        cases err with
+        | some c => exact ⟨h2.1, h2.2.1, h2.2.2.1, by simp⟩
+        | none =>
+          simp only at h2 ⊢
+          obtain ⟨i1, i2, i3, i4⟩ := ih e1 l1 h2.1 h2.2.2.1
+          refine ⟨i1, EntExt.trans h2.2.1 i2, i3, ?_⟩
+          intro hn a' ha'
+          rcases List.mem_cons.mp ha' with ha' | ha'
+          · subst ha'
+            refine ⟨by omega, ht, ?_⟩
+            intro b hb k hk
+            obtain ⟨e', he', ht', hr⟩ := h2.2.2.2 trivial b hb k hk
+            obtain ⟨e'', he'', ht'', _, hr'⟩ := i2 e' he'
+            exact ⟨e'', he'', ht''.trans ht', hr' _ hr⟩
+          · exact i4 hn a' ha'
+
+/-- **An accepted recipient reaches every target of every address it stands for.**  If `AddRcpt` succeeds (the RCPT
+command is answered 250), then for EVERY result `c` of the global modifiers, EVERY result `a` of the source block's
+modifiers for `c`, EVERY result `b` of the modifiers of `a`'s destination block and EVERY target `k` of that block,
+the delivery object of `k` in this transaction holds the recipient (under its original address) and `AddRcpt ok`
+for `b` is in its call log.  Nothing the pipeline held before is lost (`EntExt`), the typestate invariants hold. -/
+theorem C03_fan_accepted_recipient_reaches_every_target (cfg : Cfg) (g s d : XTab) (pd : PDel) (r : RcptF) (a0 : XA)
+    (log : Log) (h : EntInv log pd.ents) (hok : EntOK log pd.ents) :
+    let res := xAddRcpt cfg g s d pd r a0 log
+    EntInv res.2.1 res.1.ents ∧ EntExt pd.ents res.1.ents ∧ EntOK res.2.1 res.1.ents ∧
+    (res.2.2 = none →
+      ∀ c ∈ xLookup g a0, ∀ a ∈ xLookup s c, a.2 < 3 ∧ ∀ b ∈ xLookup d a, ∀ k ∈ targetsOf cfg (cfg.routes a.2),
+        ∃ e ∈ res.1.ents, e.tgt = k ∧ (r.uid, b.1) ∈ e.rcpts ∧ Ev.rcpt r.uid b.1 true ∈ evsAt res.2.1 e.idx) := by
+  intro res
+  have hm := xAddEffs_mono cfg pd.mail r d (xStage2 g s a0) pd.ents log h hok
+  refine ⟨hm.1, hm.2.1, hm.2.2.1, ?_⟩
+  intro hn c hc a ha
+  obtain ⟨hj, _, hall⟩ := hm.2.2.2 hn a ((C03_fan_stage2_mem g s a0 a).mpr ⟨c, hc, ha⟩)
+  refine ⟨hj, ?_⟩
+  intro b hb k hk
+  obtain ⟨e, he, ht, hr⟩ := hall b hb k hk
+  exact ⟨e, he, ht, hr, hm.2.2.1.logged e he _ hr⟩
+
+/-- **… and a success reply to the message commits it there.**  Whatever the entries of the pipeline delivery hold
+when `Body` and `Commit` both succeed (the final reply of DATA is 250) gets `Body ok, Commit ok` appended to its call
+log: together with the theorem above, every target of every effective address of every accepted recipient. -/
+theorem C03_fan_success_commits_every_entry (f : DataF) (pd : PDel) (w : World) (h : EntInv w.log pd.ents)
+    (hok : EntOK w.log pd.ents) (hb : (pBody f pd w).2 = none) (hc : (pCommit pd (pBody f pd w).1).2 = none) :
+    ∀ e ∈ pd.ents, evsAt (pCommit pd (pBody f pd w).1).1.log e.idx = evsAt w.log e.idx ++ [.body true, .commit true] := by
+  intro e he
+  have h1 := pBody_ok f pd w h hb e he
+  have h2 := pCommit_ok pd (pBody f pd w).1 (pBody_spec f pd w h).1 hok.notFailed hc e he
+  rw [h2, h1]; simp
+
+/-- non-vacuity: a recipient that stands for three addresses behind two destination blocks -/
+example :
+    let cfg : Cfg := ⟨false, false, 2, 0, fun j => if j == 0 then 1 else 2⟩
+    let r : RcptF := ⟨1000, 1, 0, .plain, .perm, false, false, 0⟩
+    let res := xAddRcpt cfg [((1, 0), [(2, 0), (3, 1)])] [((2, 0), [(4, 0), (5, 1)])] [] ⟨MailF.null, []⟩ r (1, 0) []
+    res.2.2 = none ∧ res.2.1 = [⟨0, [.rcpt 1000 4 true]⟩, ⟨1, [.rcpt 1000 5 true, .rcpt 1000 3 true]⟩] := by
+  decide
+
+
+theorem xAddEach_spec (m : MailF) (r : RcptF) (tg : List Nat) : ∀ (bs : List XA) (ents : List DEntry) (log : Log),
+    EntInv log ents → EntInv (xAddEach m r tg bs ents log).2.1 (xAddEach m r tg bs ents log).1 := by
+  intro bs
+  induction bs with
+  | nil => intro ents log h; exact h
+  | cons b bs ih =>
+    intro ents log h
+    have h1 := (addTargets_spec m (xEff r b) tg ents log h).1
+    simp only [xAddEach]
+    generalize addTargets m (xEff r b) tg ents log = x at *
+    obtain ⟨e1, l1, err⟩ := x
+    cases err with
+    | some c => exact h1
+    | none => exact ih e1 l1 h1
+
+theorem xAddEffs_spec (cfg : Cfg) (m : MailF) (r : RcptF) (d : XTab) : ∀ (as : List XA) (ents : List DEntry) (log : Log),
+    EntInv log ents → EntInv (xAddEffs cfg m r d as ents log).2.1 (xAddEffs cfg m r d as ents log).1 := by
+  intro as
+  induction as with
+  | nil => intro ents log h; exact h
+  | cons a as ih =>
+    intro ents log h
+    simp only [xAddEffs]
+    split
+    · exact h
+    · split
+      · exact h
+      · have h2 := xAddEach_spec m r (targetsOf cfg (cfg.routes a.2)) (xLookup d a) ents log h
+        generalize xAddEach m r (targetsOf cfg (cfg.routes a.2)) (xLookup d a) ents log = x at *
+        obtain ⟨e1, l1, err⟩ := x
+        cases err with
+        | some c => exact h2
+        | none => exact ih e1 l1 h2
+
+/-! ### whole sessions with such recipients (`xRun`): typestate and permits -/
+
+theorem xSessRcptOn_inv (cfg : Cfg) (g s d : XTab) (w : World) (pd : PDel) (r : RcptF) (a : XA) (h : WInv w)
+    (hd : w.sess.delivery = some pd) :
+    WInv (xSessRcptOn cfg g s d w pd r a).1 ∧ (xSessRcptOn cfg g s d w pd r a).1.sess.delivery.isSome = true := by
+  unfold xSessRcptOn
+  have he : EntInv w.log pd.ents := by simpa [curEnts, hd] using h.ent
+  have := (xAddEffs_spec cfg pd.mail r d (xStage2 g s a) pd.ents w.log he)
+  unfold xAddRcpt
+  generalize xAddEffs cfg pd.mail r d (xStage2 g s a) pd.ents w.log = x at *
+  obtain ⟨ents', log', err⟩ := x
+  simp only at this ⊢
+  have hS := h.heldS; have hN := h.heldN
+  simp [hd] at hS hN
+  cases err with
+  | some c =>
+    simp only
+    exact ⟨⟨by simpa [curEnts] using this, by simp [hS], by simp [hN], h.noPanic⟩, by simp⟩
+  | none =>
+    simp only
+    exact ⟨⟨by simpa [curEnts] using this, by simp [hS], by simp [hN], h.noPanic⟩, by simp⟩
+
+theorem xSessRcpt_inv (cfg : Cfg) (g s d : XTab) (w : World) (r : RcptF) (a : XA) (h : WInv w) :
+    WInv (xSessRcpt cfg g s d w r a).1 ∧
+    ((xSessRcpt cfg g s d w r a).2 = none → (xSessRcpt cfg g s d w r a).1.sess.delivery.isSome = true) ∧
+    (w.sess.delivery.isSome = true → (xSessRcpt cfg g s d w r a).1.sess.delivery.isSome = true) := by
+  unfold xSessRcpt
+  split
+  · rename_i pd hd
+    have := xSessRcptOn_inv cfg g s d w pd r a h hd
+    exact ⟨this.1, fun _ => this.2, fun _ => this.2⟩
+  · rename_i hd
+    split
+    · exact ⟨h, by simp, by simp [hd]⟩
+    · obtain ⟨a1, b, c⟩ := startDelivery_inv w w.sess.mail h hd
+      generalize startDelivery w w.sess.mail = x at *
+      obtain ⟨w1, res⟩ := x
+      cases res with
+      | some c1 =>
+        simp only
+        have hs := (c (by simp)).1
+        simp only at hs a1
+        refine ⟨⟨by simpa [curEnts, hs, hd] using a1.ent, ?_, ?_, a1.noPanic⟩, by simp, by simp [hd]⟩
+        · have := a1.heldS; simp [hs, hd] at this ⊢; exact this
+        · have := a1.heldN; simp [hs, hd] at this ⊢; exact this
+      | none =>
+        simp only
+        have hb := b rfl
+        simp only at hb a1
+        have := xSessRcptOn_inv cfg g s d w1 ⟨w.sess.mail, []⟩ r a a1 hb.1
+        exact ⟨this.1, fun _ => this.2, fun _ => this.2⟩
+
+theorem xStep_inv (cfg : Cfg) (g s d : XTab) (st : St) (t : XTok) (h : Inv st) : Inv (xStep cfg g s d st t).1 := by
+  cases t with
+  | plain t => exact step_inv cfg st t h
+  | rcpt r a =>
+    unfold xStep
+    by_cases hc : st.closed = true
+    · simp [hc]; exact h
+    · have hc' : st.closed = false := by simpa using hc
+      simp only []
+      rw [if_neg hc]
+      simp only [one]
+      split
+      · exact h
+      · rename_i hf
+        have hf' : st.fromReceived = true := by simpa using hf
+        have hh' := h.fromHelo hc' hf'
+        split
+        · exact h
+        · obtain ⟨a1, b, c⟩ := xSessRcpt_inv cfg g s d st.w r a h.w
+          generalize xSessRcpt cfg g s d st.w r a = x at *
+          obtain ⟨w1, res⟩ := x
+          cases res with
+          | some code =>
+            simp only
+            exact h.setW w1 a1 c (fun _ => hh')
+          | none =>
+            simp only
+            exact ⟨a1, fun _ _ => b rfl, fun _ => hh', h.fromHelo, h.closedHelo, fun hb => by simp⟩
+
+theorem xRun_inv (cfg : Cfg) (g s d : XTab) : ∀ (toks : List XTok) (st : St), Inv st →
+    Inv (xRun cfg g s d st toks).1 ∧ (xRun cfg g s d st toks).1.closed = true := by
+  intro toks
+  induction toks with
+  | nil =>
+    intro st h
+    simp only [xRun]
+    split
+    · rename_i hc; exact ⟨h, hc⟩
+    · have := connClose_inv st h
+      exact ⟨this.1, this.2.1⟩
+  | cons t ts ih =>
+    intro st h
+    simp only [xRun]
+    have := ih (xStep cfg g s d st t).1 (xStep_inv cfg g s d st t h)
+    generalize xStep cfg g s d st t = x at *
+    obtain ⟨st1, o⟩ := x
+    simp only at this ⊢
+    generalize xRun cfg g s d st1 ts = y at *
+    obtain ⟨st2, os⟩ := y
+    exact this
+
+theorem xFinal_all_closed (cfg : Cfg) (g s d : XTab) (oracle : List (List Nat)) (toks : List XTok) :
+    ∀ dl ∈ (xRun cfg g s d (start oracle) toks).1.w.log, ClosedOK dl := by
+  obtain ⟨hinv, hcl⟩ := xRun_inv cfg g s d toks (start oracle) (Inv.init oracle)
+  have hh := hinv.closedHelo hcl
+  have hd := not_isSome_of_not_helo hinv hh
+  intro dl hm
+  obtain ⟨i, hi, hget⟩ := List.getElem_of_mem hm
+  have := hinv.w.ent.inv i dl (by rw [List.getElem?_eq_getElem hi, hget])
+  simpa [curEnts, hd, eidx] using this
+
+/-- **Closed exactly once, nothing after the closing call** - for every session (any command list) whose recipients
+stand for any number of effective addresses, whatever the three rewriting tables are: every delivery object any
+target handed out for any of those addresses has exactly one closing call, and it is its last call. -/
+theorem C03_fan_closed_exactly_once_by_session_end (cfg : Cfg) (g s d : XTab) (oracle : List (List Nat)) (toks : List XTok) :
+    ∀ dl ∈ (xRun cfg g s d (start oracle) toks).1.w.log,
+      dl.evs.countP Ev.isClose = 1 ∧ ∀ pre e post, dl.evs = pre ++ e :: post → e.isClose = true → post = [] :=
+  fun dl hm => ⟨(xFinal_all_closed cfg g s d oracle toks dl hm).count,
+    fun pre e post => (xFinal_all_closed cfg g s d oracle toks dl hm).last pre e post⟩
+
+/-- **Permits** of such sessions: all returned, none released twice -/
+theorem C03_fan_permits_balanced (cfg : Cfg) (g s d : XTab) (oracle : List (List Nat)) (toks : List XTok) :
+    (xRun cfg g s d (start oracle) toks).1.w.heldSrc = 0 ∧ (xRun cfg g s d (start oracle) toks).1.w.heldNull = 0 ∧
+    (xRun cfg g s d (start oracle) toks).1.w.panics = 0 := by
+  obtain ⟨hinv, hcl⟩ := xRun_inv cfg g s d toks (start oracle) (Inv.init oracle)
+  have hd := not_isSome_of_not_helo hinv (hinv.closedHelo hcl)
+  have hS := hinv.w.heldS; have hN := hinv.w.heldN
+  simp [hd] at hS hN
+  exact ⟨hS, hN, hinv.w.noPanic⟩
+
+end Fan
+
+
+/-! ## The failure kept for a deferred MAIL belongs to its own transaction (fix c94200c) -/
+
+/-- `Session.Reset` leaves no kept failure behind, whether a delivery was open or not: the RCPT commands of the next
+transaction are answered for their own MAIL -/
+theorem C03_reset_drops_deferred_failure (w : World) : (sessReset w).sess.deliveryErr = none := by
+  unfold sessReset
+  split
+  · rename_i pd _; rw [sessAbort_sess]
+  · rfl
+
+/-- a MAIL that is accepted in deferred mode (go-smtp accepts MAIL again without RSET) drops the failure kept for
+the MAIL before it -/
+theorem C03_deferred_mail_drops_kept_failure (cfg : Cfg) (w : World) (m : MailF) (hd : cfg.deferred = true)
+    (hn : w.sess.delivery = none) : (sessMail cfg w m).1.sess.deliveryErr = none ∧ (sessMail cfg w m).2 = none := by
+  simp [sessMail, hn, hd]
+
+/-- non-vacuity: a deferred MAIL whose start fails (RCPT answered 412), RSET, a clean MAIL: its RCPT is accepted -/
+example :
+    let cfg : Cfg := ⟨false, true, 1, 0, fun _ => 1⟩
+    let bad : MailF := ⟨.ascii, .temp, false, true, false, false, 0, 0, 0⟩
+    let good : MailF := ⟨.ascii, .perm, false, false, false, false, 0, 0, 0⟩
+    let r : RcptF := ⟨1, 1, 0, .plain, .perm, false, false, 0⟩
+    (run cfg (start []) [.greet, .mail bad, .rcpt r, .rset, .mail good, .rcpt r]).2 =
+      [.codes [250], .codes [250], .codes [412], .codes [250], .codes [250], .codes [250]] := by
+  decide
 
 end MaddyVerif.C03
